@@ -191,7 +191,10 @@ class Check:
         self._tmpbins = getattr(self, "_tmpbins", []) + [out_bin]
         return out_bin
 
-    def run_harness(self, hbin, extra=None, replay=None, tag="run", timeout=3600):
+    def run_harness(self, hbin, extra=None, replay=None, tag="run", timeout=None):
+        # a harness that hangs (a change to /repo can make the real code loop) must end the check, not stall it
+        if timeout is None:
+            timeout = 2400 if self.tier == "thorough" else 600
         ops = os.path.join(self.work, f"{tag}.ops")
         impl = os.path.join(self.work, f"{tag}.impl")
         stats = os.path.join(self.work, f"{tag}.stats")
@@ -201,7 +204,12 @@ class Check:
         cmd += extra or []
         env = goenv()
         env.setdefault("GOMEMLIMIT", "8GiB")
-        rc, out = sh(cmd, env=env, timeout=timeout)
+        try:
+            rc, out = sh(cmd, env=env, timeout=timeout)
+        except subprocess.TimeoutExpired:
+            self.problems.append(Problem("tie", f"harness did not finish within {timeout}s (the implementation hangs or loops on some input)",
+                                         [" ".join(cmd)], "timeout"))
+            return None
         if rc != 0:
             self.problems.append(Problem("tie", "harness crashed", [" ".join(cmd)], out[-4000:]))
             return None
